@@ -11,6 +11,10 @@ def run():
     # fine-grained model of counting_semaphore on the internal condition variable
     for cfg in ("SemImpl.cfg", "SemImpl_big.cfg", "SemImpl_ones.cfg"):
         chk.add_model("SemImpl/%s" % cfg[:-4], vlib.model_check("SemImplMC", cfg, timeout=600))
+    chk.add_model("SemRefine: SemImpl refines the abstract counter SemTiny (permits <- value)",
+                  vlib.model_check("SemRefine", "SemRefine.cfg", timeout=600))
+    rr2 = vlib.model_check("SemRefine", "SemRefine_dev.cfg", expect_ok=False, timeout=600)
+    chk.add_model("SemRefine/variant timed_take_without_recheck (must not refine)", rr2, note="violated: %s" % rr2["violated"])
     for cfg in ("SemImpl_dev_loop.cfg", "SemImpl_dev_timed.cfg", "SemImpl_dev_blind.cfg"):
         rr = vlib.model_check("SemImplMC", cfg, expect_ok=False, timeout=600)
         chk.add_model("SemImpl/variant %s (must violate)" % cfg[12:-4], rr, note="violated: %s" % rr["violated"])
